@@ -4,16 +4,16 @@ import json, subprocess
 
 CHECKS = {
  # id: (claimed?, level text, level note)
- "C01": ("Lean theorems about the executable signing arithmetic of the model: Lagrange weights of PrepareForSigning sum to the key (never hitting a nil inverse for ids distinct mod q), the transcript function (theta_j, Gamma_j, s_j -> R, s) equals finalize at R = k^-1 G, finalize is sound for EVERY input (whatever is emitted verifies, low S, 32-byte R and S, Signature = R||S, echo) and complete incl. the low-S flip, end-to-end threshold_sign_valid; tie = whole signing runs re-judged by the model from the broadcast transcript, stdlib + model verification, btcec + model key recovery",
+ "C01": ("Lean theorems about the executable signing arithmetic of the model: Lagrange weights of PrepareForSigning sum to the key (never hitting a nil inverse for ids distinct mod q), the public weighted points bigWs equal lambda_j*X_j and add up to the group key (Props/C01b), the transcript function (theta_j, Gamma_j, s_j -> R, s) equals finalize at R = k^-1 G, finalize is sound for EVERY input (whatever is emitted verifies, low S, 32-byte R and S, Signature = R||S, echo) and complete incl. the low-S flip, end-to-end threshold_sign_valid; tie = whole signing runs re-judged by the model from the broadcast transcript, stdlib + model verification, btcec + model key recovery",
          "curve lawfulness assumed for secp256k1 (tested differentially); R.x >= q (probability 2^-128) and fullBytesLen outside [|m|, 32] make honest runs fail, as the model proves and the harness observes; digest >= q refusal is asserted on the Go side only"),
  "C02": ("Lean theorems: share algebra S*B = R + h*A on any abelian group incl. cofactor-cleared nonces, little-endian helper round-trip (and its truncation behaviour); the RFC 8032 verifier of the model (own SHA-512 and curve arithmetic) judges every signature; tie = whole EdDSA keygen+signing runs under all delivery strategies, Go stdlib ed25519 oracle",
          "edwards25519 lawfulness assumed (tested differentially); the point encode/decode round-trip of the concrete curve is tested, not proved"),
  "C03": ("Lean theorems for every lawful curve: x_j*G = X_j, public points on one degree-t polynomial with constant term PK = sum u_i*G, any t+1 interpolate (weights and reconstruct), and Feldman acceptance alone implies consistency for arbitrary dealt values; tie = whole key-generation runs (both curves, all strategies) with the C03 clauses asserted on every party's save data",
          "curve lawfulness assumed for the concrete curves; Paillier/ring-Pedersen arrays are compared across parties by direct assertion"),
- "C04": ("Lean theorems: resharing preserves the secret and the public key, the V_0 = PK check is sound for arbitrary old-committee input, chains preserve the key; the two-committee round engine (Engine2, resharing tables of both curves): over every reachable state of the closed old+new system (any order, duplicates, pre-Start) no old member ends and no new member saves before every new member has acknowledged, an acknowledgement follows all shares, a cut run leaves every old member intact, schedule independence, pre-Start = post-Start, no deadlock; the same ordering is asserted after EVERY delivery of every run (every prefix is a cut point); tie = whole resharing runs (both curves, proofs on/off, pre-Start, one slow packet per message type, chains, sign-after) with every member's engine trace compared with Engine2",
+ "C04": ("Lean theorems: resharing preserves the secret and the public key, the V_0 = PK check is sound for arbitrary old-committee input, chains preserve the key; the two-committee round engine (Engine2, resharing tables of both curves): over every reachable state of the closed old+new system (any order, duplicates, pre-Start) no old member ends and no new member saves before every new member has acknowledged, an acknowledgement follows all shares, a cut run leaves every old member intact, schedule independence, pre-Start = post-Start, no deadlock; the same ordering is asserted after EVERY delivery of every run (every prefix is a cut point); the new member's share-side checks (BlameRs: every announcement compared, de-commitment, share check, V_0 = y) proved for any curve; tie = whole resharing runs (both curves, proofs on/off, pre-Start, one slow packet per message type, chains, sign-after) with every member's engine trace compared with Engine2, and tampered / shifted-key runs of both curves re-judged per new member by BlameRs",
          "the cryptographic bodies of the resharing rounds are the C03/C10-C15 models plus run-level assertions; ECDSA resharing verifies the new members' factorisation proofs after the acknowledgements (R1, see DESIGN.md)"),
- "C05": ("Lean theorems about the round-level blame models (EdDSA keygen round 3, EdDSA signing round 3, ECDSA keygen rounds 2 and 3): exactly the failing peers are named, never the party itself or a peer that sent nothing; an altered value covered by the commitment, the Schnorr proof or the Feldman check is blamed; honest peers pass (from C10/C15/C16), hence a single deviator is named exactly; the rounds return; accepted shares are consistent; plus the no-bad-output facts of C01/C03/C16; tie = fault injection over all six protocols (one alteration per message field found by protobuf reflection, every position, whole-message replay, acknowledgement forgery in resharing) in child processes, with the two modelled rounds re-judged by the model from the delivered fields",
-         "of the ECDSA rounds only key generation rounds 2-3 are modelled as round functions (all verifiers are): for the others blame and output validity are direct assertions on injected runs; soundness against adaptive provers is cryptographic and not claimed; after a party has reported an error the caller must stop feeding it messages (the library does not latch failures)"),
+ "C05": ("Lean theorems about the round-level blame models (EdDSA keygen round 3, EdDSA signing round 3, ECDSA keygen rounds 2 and 3, the parameter part of an ECDSA new member's resharing round 4; ECDSA signing rounds 2, 3, 5, 7 are modelled and tied, their theorems are in Props/C05d when present): exactly the failing peers are named, never the party itself or a peer that sent nothing; an altered value covered by the commitment, the Schnorr proof or the Feldman check is blamed; honest peers pass (from C10/C15/C16), hence a single deviator is named exactly; the rounds return; accepted shares are consistent; plus the no-bad-output facts of C01/C03/C16; tie = fault injection over all six protocols (one alteration per message field found by protobuf reflection, every position, whole-message replay, acknowledgement forgery in resharing) in child processes, with every modelled round re-judged by the model from the delivered fields (kg_round3, sg_round3, ec_kg_round2/3, ec_rs_round4_params, ec_sg_round2/3/5/7)",
+         "of the ECDSA rounds, key generation rounds 2-3, signing rounds 2, 3, 5, 7 and the parameter part of resharing round 4 are modelled as round functions up to the culprit decision (all verifiers are): for the others (signing round 9 / finalize, resharing round 5) blame and output validity are direct assertions on injected runs; in signing rounds 2-3 the Go error lists a peer once per failed step, the model once (compared as sets); soundness against adaptive provers is cryptographic and not claimed; after a party has reported an error the caller must stop feeding it messages (the library does not latch failures)"),
  "C06": ("Lean theorems that every modelled verifier/decoder returns (never `panic`) for all field values, with pre-fix crash witnesses, and the modelled round bodies return; model tied to the Go verifiers by verdict agreement on boundary grids over every field of every proof system; protocol level: boundary values in every message field and junk (random/bit-flipped/truncated bytes, wrong/out-of-range/unknown senders, flipped flags, foreign messages) through UpdateFromBytes in whole runs of all six protocols, in child processes under watchdogs, also with a single verifier worker",
          "the wire codec (protobuf) is not modelled: for undecodable bytes the only oracle is 'returns, process alive'; hangs are detected by watchdogs (runtime observation)"),
  "C07": ("Lean theorems about the round-engine model for every table: fixpoint after each update, local confluence, idempotent duplicates, schedule independence up to permutation and duplication, pre-Start = post-Start delivery, ends exactly once, and no_deadlock for the closed n-party system (all-to-all, disciplined tables; hypotheses decided for the four library tables); tie = the behaviour of every party after each event of whole runs under 9 delivery strategies, one slow packet per message type and exhaustive interleavings (EdDSA n=2) equals the model's trace; resharing runs with one slow packet per message type against Engine2",
